@@ -15,11 +15,15 @@ for _n, _c, _tier in ((3, 2, 'thorough'), (4, 2, 'thorough'), (3, 3, 'thorough')
     GROUPS.append(dict(_S, cls='B', name='softclip_independence_n%dc%d' % (_n, _c), entry='h_softclip_independence', unwind=_n * _c + 2, timeout=5400, mem_gb=24, tier=_tier,
         defines=['-U__SSE__', '-DVERIF_N=%d' % _n, '-DVERIF_C=%d' % _c], bounds='N=%d x C=%d, arbitrary finite floats, memory in [-1,1]' % (_n, _c),
         what='one interleaved call equals C mono calls with per-channel memory, bit for bit'))
-for _n, _c, _q, _tier in ((3, 2, 1, 'quick'), (3, 2, 0, 'quick'), (4, 2, 1, 'thorough'), (4, 2, 0, 'thorough'), (3, 3, 1, 'thorough')):
+for _n, _c, _q, _tier in ((3, 2, 1, 'quick'), (3, 2, 0, 'thorough'), (4, 2, 1, 'thorough'), (4, 2, 0, 'thorough'), (3, 3, 1, 'thorough')):
     GROUPS.append(dict(_S, cls='B', name='softclip_isolation_n%dc%dq%d' % (_n, _c, _q), entry='h_softclip_isolation', unwind=_n * _c + 2, timeout=3600, mem_gb=16, tier=_tier,
         cbmc_flags=['--object-bits', '10', '--slice-formula'],
         defines=['-U__SSE__', '-DVERIF_N=%d' % _n, '-DVERIF_C=%d' % _c, '-DVERIF_QUIET=%d' % _q], bounds='N=%d x C=%d, channel %d in [-1,1] with cleared memory, the other channels arbitrary finite floats with memory in [-1,1]' % (_n, _c, _q),
         what='a channel that needs no clipping is untouched whatever the other channels contain (channel isolation)'))
+for _n, _c, _tier in ((3, 2, 'thorough'), (4, 2, 'thorough')):
+    GROUPS.append(dict(_S, cls='B', name='softclip_sign_n%dc%d' % (_n, _c), entry='h_softclip_sign', unwind=_n * _c + 2, timeout=3600, mem_gb=16, tier=_tier,
+        defines=['-U__SSE__', '-DVERIF_N=%d' % _n, '-DVERIF_C=%d' % _c], bounds='N=%d x C=%d, arbitrary finite floats, memory in [-1,1]' % (_n, _c),
+        what='no sample changes sign (one run, ghost index)'))
 for _nm, _d in (('plc', ['-DVERIF_GAIN_PLC=1']), ('frame', [])):
     for (_ch, _fr) in ((2, 2), (1, 1)):
         GROUPS.append(dict(name='decode_gain_%s_c%df%d' % (_nm, _ch, _fr), cls='B', tu='C19_decode_gain.c', entry='h_decode_gain', dfcc=False, canary='real', expect_canaries=2,
@@ -30,7 +34,7 @@ for _nm, _d in (('plc', ['-DVERIF_GAIN_PLC=1']), ('frame', [])):
             bounds='Fs = 8000, MDCT-only frame of %g ms without mode transition, %d channel(s), %s, any gain -32768..32767' % (_fr * 2.5, _ch, 'lost frame' if _nm == 'plc' else 'payload of 2-3 symbolic bytes'),
             what='decoder gain block of opus_decode_frame: applied iff gain != 0, factor exp(ln2*6.48814081e-4*g), every sample scaled, nothing else changed'))
 for _ch in (1, 2):
-    GROUPS.append(dict(name='decode_gain_transition_c%d' % _ch, cls='B', tu='C19_decode_gain.c', entry='h_decode_gain_transition', dfcc=False, canary='real', expect_canaries=2,
+    GROUPS.append(dict(name='decode_gain_transition_c%d' % _ch, cls='B', tier='quick' if _ch == 1 else 'thorough', tu='C19_decode_gain.c', entry='h_decode_gain_transition', dfcc=False, canary='real', expect_canaries=2,
         defines=['-DVERIF_FS=8000', '-U__SSE__', '-DVERIF_MAXLEN=3', '-DVERIF_FIXED_PCM=1', '-DVERIF_CH=%d' % _ch, '-DVERIF_TOCF=4', '-DVERIF_BUF=80', '-DVERIF_FRAME=4'], unwind=14,
         unwind_src=[(r'i<frame_size\*st->channels', 82 * _ch), (r'i<audiosize\*st->channels', 82 * _ch), (r'i<st->channels\*F2_5', 42), (r'i<F2_5|i<overlap', 22)], timeout=1800, mem_gb=20, cbmc_flags=['--object-bits', '10', '--slice-formula'],
         cex={'self': True}, functions=['opus_decode_frame', 'smooth_fade'],
